@@ -81,8 +81,11 @@ class ArrayConstraintBuilder(ConstraintOverrideVisitor):
                     c.accept(self)
 
         if len(self.foreach_scope_s) > 1:
+            # A nested foreach contributes to the scope that is being 
+            # built around it (the enclosing foreach body, or an if/implies 
+            # branch inside that body)
             for c in scope.constraint_l:
-                self.foreach_scope_s[-2].constraint_l.append(c)
+                self.constraints.append(c)
 
         self.index_set.remove(f.index)
         self.foreach_scope_s.pop()
